@@ -155,7 +155,8 @@ def Pre (d : Nat → Nat) (s : St) : Call → Prop
   | .requeue key _ _ _ _ => WfS s.sk (some key) ∧ s.sk.Idx key ∧ DebtOk none d s.sk
   | .endQuery _ key _ _ => WfS s.sk (some key) ∧ s.sk.Idx key ∧ DebtOk none d s.sk
   | .callback owner _ _ _ _ => Wf s ∧ s.sk.OwnerFree owner ∧ s.sk.DebtFor d owner
-  | .userCb tok _ _ _ _ => Wf s ∧ DebtOk none d s.sk ∧ tok ∈ s.sk.pendingToks ∧
+  | .userCb tok _ _ _ _ => Wf s ∧
+      (∃ x, DebtOk x d s.sk ∧ ∀ c ∈ s.sk.clients, some c.id = x → c.tok = tok) ∧ tok ∈ s.sk.pendingToks ∧
       (∀ p ∈ s.sk.qKO, p.1 ∈ s.sk.idx → p.2 ≠ .user tok) ∧
       (∀ c ∈ s.sk.clients, c.tok = tok → s.sk.NoSub c.id ∧ d c.id = 0)
   | .closeConn fd _ => Wf s ∧ s.sk.hasConn fd false ∧ DebtOk none d s.sk
